@@ -27,11 +27,15 @@ import (
 
 	route "github.com/envoyproxy/go-control-plane/envoy/config/route/v3"
 
+	meshconfig "istio.io/api/mesh/v1alpha1"
 	networking "istio.io/api/networking/v1alpha3"
 	"istio.io/istio/pilot/pkg/model"
 	"istio.io/istio/pilot/pkg/networking/core"
+	"istio.io/istio/pilot/pkg/serviceregistry/provider"
+	"istio.io/istio/pkg/cluster"
 	"istio.io/istio/pkg/config"
 	"istio.io/istio/pkg/config/host"
+	"istio.io/istio/pkg/config/mesh"
 	"istio.io/istio/pkg/config/protocol"
 	"istio.io/istio/pkg/config/schema/gvk"
 	"istio.io/istio/pkg/config/validation"
@@ -73,18 +77,60 @@ type meshSvc struct {
 	host, ns, addr string
 	ext            string   // Kubernetes ExternalName: the service is an alias (Resolution: Alias) of this host
 	aliases        []string // Attributes.Aliases: alias services pointing to this one
-	ports          []int
+	ports          []int    // every port ...
+	tcp            []int    // ... those of them that are TCP ports (the others are HTTP)
+	vips           []clusterVIP
+	headless       bool     // a Kubernetes headless service: its pods are addressed as <pod>.<name of the service>
+	addrsFor       []string // spec: the addresses of the service for the proxy at hand (set by addressesFor)
+}
+
+// addressesFor: the VIPs by which an IPv4-only proxy of cluster `cl` reaches the service - the IPv4 VIPs of its own
+// cluster if the service has any there; else the service's default address (for a service with per-cluster VIPs that
+// is another cluster's VIP: used only if it is IPv4).
+func (ms meshSvc) addressesFor(cl string) []string {
+	var own []string
+	for _, v := range ms.vips {
+		if v.cluster == cl && cl != "" {
+			for _, a := range v.addrs {
+				if !strings.Contains(a, ":") {
+					own = append(own, a)
+				}
+			}
+		}
+	}
+	if len(own) > 0 {
+		return own
+	}
+	if ms.addr == "" || (len(ms.vips) > 0 && strings.Contains(ms.addr, ":")) {
+		return nil
+	}
+	return []string{ms.addr}
+}
+
+// clusterVIP: ClusterVIPs entry - the VIPs of the service in one cluster (multi-cluster / dual-stack)
+type clusterVIP struct {
+	cluster string
+	addrs   []string
+}
+
+type vsExtra struct {
+	exportTo, gateways []string
 }
 
 type meshState struct {
 	svcs        []meshSvc
-	sidecarNs   string          // namespace of the (single) Sidecar resource, "" = none
-	egress      []string        // hosts of its catch-all egress listener, `ns/dnsName`
-	policy      string          // its outboundTrafficPolicy: "allow", "registry", "egress=<cluster>"
-	egressPort  int             // a port-specific egress listener (0 = none) ...
-	egressPortH []string        // ... and its hosts
-	vss         []config.Config // as the spec reads them (short names resolved)
-	rawVss      []config.Config // as written: the input of the real code
+	sidecarNs   string             // namespace of the (single) Sidecar resource, "" = none
+	egress      []string           // hosts of its catch-all egress listener, `ns/dnsName`
+	policy      string             // its outboundTrafficPolicy: "allow" (unset), "allowany", "registry", "egress=<cluster>"
+	selector    map[string]string  // its workloadSelector
+	meshPolicy  string             // MeshConfig.outboundTrafficPolicy: "" / "allow", "registry", "dynamic"
+	cluster     string             // cluster id of the proxy of the last `rds`
+	extras      map[string]vsExtra // VirtualService ns/name -> exportTo, gateways
+	drs         [][2]string        // DestinationRule objects (host, namespace)
+	egressPort  int                // a port-specific egress listener (0 = none) ...
+	egressPortH []string           // ... and its hosts
+	vss         []config.Config    // as the spec reads them (short names resolved)
+	rawVss      []config.Config    // as written: the input of the real code
 	rc          *route.RouteConfiguration
 	proxyDomain string
 	// real generator environment of the case (built at the first `rds`, dropped when the mesh changes)
@@ -106,16 +152,36 @@ func (m *meshSvc) real() *model.Service {
 	s := &model.Service{Hostname: host.Name(m.host), DefaultAddress: m.addr,
 		Attributes: model.ServiceAttributes{Name: strings.Split(m.host, ".")[0], Namespace: m.ns}}
 	for _, p := range m.ports {
-		s.Ports = append(s.Ports, &model.Port{Name: "http-" + strconv.Itoa(p), Port: p, Protocol: protocol.HTTP})
+		if intIn(m.tcp, p) {
+			s.Ports = append(s.Ports, &model.Port{Name: "tcp-" + strconv.Itoa(p), Port: p, Protocol: protocol.TCP})
+		} else {
+			s.Ports = append(s.Ports, &model.Port{Name: "http-" + strconv.Itoa(p), Port: p, Protocol: protocol.HTTP})
+		}
+	}
+	for _, v := range m.vips {
+		s.ClusterVIPs.SetAddressesFor(cluster.ID(v.cluster), v.addrs)
 	}
 	s.Attributes.K8sAttributes.ExternalName = m.ext
 	if m.ext != "" {
 		s.Resolution = model.Alias // as the Kubernetes registry marks ExternalName services
 	}
+	if m.headless { // a Kubernetes headless service
+		s.Resolution = model.Passthrough
+		s.Attributes.ServiceRegistry = provider.Kubernetes
+	}
 	for _, a := range m.aliases {
 		s.Attributes.Aliases = append(s.Attributes.Aliases, model.NamespacedHostname{Hostname: host.Name(a), Namespace: m.ns})
 	}
 	return s
+}
+
+func intIn(l []int, x int) bool {
+	for _, y := range l {
+		if x == y {
+			return true
+		}
+	}
+	return false
 }
 
 func (s *state) rdsStep(f []string) (string, bool) {
@@ -125,12 +191,26 @@ func (s *state) rdsStep(f []string) (string, bool) {
 		ms := meshSvc{host: wire.Dec(f[1]), ns: wire.Dec(f[2]), addr: wire.Dec(f[4])}
 		if len(f) > 5 {
 			ms.ext = wire.Dec(f[5])
+			if ms.ext == "headless" { // the ExternalName slot carries the marker of a headless service
+				ms.ext, ms.headless = "", true
+			}
 		}
 		if len(f) > 6 {
 			ms.aliases = wire.DecList(f[6])
 		}
 		for _, p := range wire.DecList(f[3]) {
+			if strings.HasPrefix(p, "t") {
+				ms.tcp = append(ms.tcp, atoi(p[1:]))
+				p = p[1:]
+			}
 			ms.ports = append(ms.ports, atoi(p))
+		}
+		if len(f) > 7 { // cluster VIPs: c1=a+b;c2=c
+			for _, e := range strings.Split(wire.Dec(f[7]), ";") {
+				if c, as, ok := strings.Cut(e, "="); ok {
+					ms.vips = append(ms.vips, clusterVIP{c, strings.Split(as, "+")})
+				}
+			}
 		}
 		m.svcs = append(m.svcs, ms)
 		m.drop()
@@ -139,13 +219,24 @@ func (s *state) rdsStep(f []string) (string, bool) {
 		return "ok", true
 	case "sidecar": // sidecar <ns> <catch-all egress hosts> [<policy> [<port> <hosts of the port-specific listener>]]
 		m.sidecarNs, m.egress = wire.Dec(f[1]), wire.DecList(f[2])
-		m.policy, m.egressPort, m.egressPortH = "allow", 0, nil
+		m.policy, m.egressPort, m.egressPortH, m.selector = "allow", 0, nil, nil
 		if len(f) > 3 {
 			m.policy = f[3]
 		}
 		if len(f) > 5 {
 			m.egressPort, m.egressPortH = atoi(f[4]), wire.DecList(f[5])
 		}
+		if len(f) > 6 {
+			m.selector = pairsMap(decPairs(f[6]))
+		}
+		m.drop()
+		return "ok", true
+	case "meshpolicy": // MeshConfig.outboundTrafficPolicy: allow | registry | dynamic
+		m.meshPolicy = f[1]
+		m.drop()
+		return "ok", true
+	case "mdr": // mdr <host> <ns>: a DestinationRule object (subsets v1, v2; consistent hash) - must not change any decision
+		m.drs = append(m.drs, [2]string{wire.Dec(f[1]), wire.Dec(f[2])})
 		m.drop()
 		return "ok", true
 	case "mvs":
@@ -154,13 +245,26 @@ func (s *state) rdsStep(f []string) (string, bool) {
 			return "ok", true
 		}
 		for _, c := range m.vss {
-			if c.Name == s.cfg.Name {
-				return "ok", true
+			if c.Name == s.cfg.Name && c.Namespace == s.cfg.Namespace {
+				return "ok", true // VirtualServices are identified by name AND namespace
 			}
 		}
 		c := s.cfg.DeepCopy()
 		c.CreationTimestamp = time.Unix(int64(1000+len(m.vss)), 0)
 		c.Domain = "cluster.local"
+		var ex vsExtra
+		if len(f) > 1 {
+			ex.exportTo = wire.DecList(f[1])
+		}
+		if len(f) > 2 {
+			ex.gateways = wire.DecList(f[2])
+		}
+		c.Spec.(*networking.VirtualService).ExportTo = ex.exportTo
+		c.Spec.(*networking.VirtualService).Gateways = ex.gateways
+		if m.extras == nil {
+			m.extras = map[string]vsExtra{}
+		}
+		m.extras[c.Namespace+"/"+c.Name] = ex
 		m.rawVss = append(m.rawVss, c) // what the real code is given
 		// what the spec reads: short names mean <name>.<namespace of the VirtualService>.svc.<cluster domain>
 		sc := c.DeepCopy()
@@ -183,6 +287,10 @@ func (s *state) rdsStep(f []string) (string, bool) {
 		// REAL model.XdsCache (core.NewConfigGenerator(cache)) serves every proxy of the case, in op order, from
 		// one push context - so whatever the RDS cache shares between proxies is part of what is observed.
 		ns, labels, port := wire.Dec(f[1]), pairsMap(decPairs(f[2])), atoi(f[3])
+		m.cluster = ""
+		if len(f) > 4 {
+			m.cluster = wire.Dec(f[4])
+		}
 		if m.cg == nil {
 			m.fl = &failer{}
 			var svcs []*model.Service
@@ -202,23 +310,47 @@ func (s *state) rdsStep(f []string) (string, bool) {
 				switch {
 				case m.policy == "registry":
 					sc.OutboundTrafficPolicy = &networking.OutboundTrafficPolicy{Mode: networking.OutboundTrafficPolicy_REGISTRY_ONLY}
+				case m.policy == "allowany":
+					sc.OutboundTrafficPolicy = &networking.OutboundTrafficPolicy{Mode: networking.OutboundTrafficPolicy_ALLOW_ANY}
 				case strings.HasPrefix(m.policy, "egress="):
 					h, p, _ := strings.Cut(wire.Dec(m.policy[7:]), "|")
 					sc.OutboundTrafficPolicy = &networking.OutboundTrafficPolicy{Mode: networking.OutboundTrafficPolicy_ALLOW_ANY,
 						EgressProxy: &networking.Destination{Host: h, Port: &networking.PortSelector{Number: uint32(atoi(p))}}}
+				}
+				if len(m.selector) > 0 {
+					sc.WorkloadSelector = &networking.WorkloadSelector{Labels: m.selector}
 				}
 				cfgs = append(cfgs, config.Config{
 					Meta: config.Meta{GroupVersionKind: gvk.Sidecar, Name: "sc", Namespace: m.sidecarNs, CreationTimestamp: time.Unix(800, 0)},
 					Spec: sc,
 				})
 			}
-			m.cg = core.NewConfigGenTest(m.fl, core.TestOptions{Services: svcs, Configs: cfgs})
+			for i, dr := range m.drs {
+				cfgs = append(cfgs, config.Config{
+					Meta: config.Meta{GroupVersionKind: gvk.DestinationRule, Name: "dr" + strconv.Itoa(i), Namespace: dr[1], CreationTimestamp: time.Unix(int64(700+i), 0)},
+					Spec: &networking.DestinationRule{Host: dr[0],
+						Subsets: []*networking.Subset{{Name: "v1", Labels: map[string]string{"version": "v1"}}, {Name: "v2", Labels: map[string]string{"version": "v2"}}},
+						TrafficPolicy: &networking.TrafficPolicy{LoadBalancer: &networking.LoadBalancerSettings{LbPolicy: &networking.LoadBalancerSettings_ConsistentHash{
+							ConsistentHash: &networking.LoadBalancerSettings_ConsistentHashLB{HashKey: &networking.LoadBalancerSettings_ConsistentHashLB_HttpHeaderName{HttpHeaderName: "x-user"}}}}}},
+				})
+			}
+			opts := core.TestOptions{Services: svcs, Configs: cfgs}
+			if m.meshPolicy != "" && m.meshPolicy != "allow" {
+				mc := mesh.DefaultMeshConfig()
+				mode := meshconfig.MeshConfig_OutboundTrafficPolicy_REGISTRY_ONLY
+				if m.meshPolicy == "dynamic" {
+					mode = meshconfig.MeshConfig_OutboundTrafficPolicy_ALLOW_ANY_DYNAMIC_DNS
+				}
+				mc.OutboundTrafficPolicy = &meshconfig.MeshConfig_OutboundTrafficPolicy{Mode: mode}
+				opts.MeshConfig = mc
+			}
+			m.cg = core.NewConfigGenTest(m.fl, opts)
 			m.gen = core.NewConfigGenerator(model.NewXdsCache())
 			m.req = &model.PushRequest{Push: m.cg.PushContext(), Start: time.Now()}
 		}
 		m.nproxy++
 		proxy := m.cg.SetupProxy(&model.Proxy{ConfigNamespace: ns, Labels: labels, ID: "p" + strconv.Itoa(m.nproxy) + "." + ns,
-			Metadata: &model.NodeMetadata{Namespace: ns, Labels: labels}})
+			Metadata: &model.NodeMetadata{Namespace: ns, Labels: labels, ClusterID: cluster.ID(m.cluster)}})
 		resources, _ := m.gen.BuildHTTPRoutes(proxy, m.req, []string{strconv.Itoa(port)})
 		m.rc = nil
 		if len(resources) == 1 {
@@ -269,8 +401,21 @@ func egressSelectsNs(e, own, ns string) (string, bool) {
 	return h, ens == "*" || ens == ns
 }
 
+// scoped: does the (single) Sidecar resource apply to the proxy?  In its own namespace iff its workloadSelector is a
+// subset of the workload labels; in any other namespace iff it is the root-namespace default (no selector).
 func (s *state) scoped() bool {
-	return s.mesh.sidecarNs != "" && s.node != nil && s.node.Metadata.Namespace == s.mesh.sidecarNs
+	if s.mesh.sidecarNs == "" || s.node == nil {
+		return false
+	}
+	if s.node.Metadata.Namespace == s.mesh.sidecarNs {
+		for k, v := range s.mesh.selector {
+			if s.node.Labels[k] != v {
+				return false
+			}
+		}
+		return true
+	}
+	return s.mesh.sidecarNs == "istio-system" && len(s.mesh.selector) == 0
 }
 
 // egressHosts: the egress listener declared for the listener port if there is one, else the catch-all listener.
@@ -291,7 +436,7 @@ func (s *state) excluded(ns, name string) bool {
 		if strings.HasPrefix(e, "/") {
 			e = "*" + e
 		}
-		if h, ok := egressSelectsNs(e, s.mesh.sidecarNs, ns); ok && (h == name || subsetOf(name, h)) {
+		if h, ok := egressSelectsNs(e, s.node.Metadata.Namespace, ns); ok && (h == name || subsetOf(name, h)) {
 			return true
 		}
 	}
@@ -309,7 +454,7 @@ func (s *state) svcVisible(ms meshSvc) bool {
 		if strings.HasPrefix(e, "~") {
 			continue
 		}
-		if h, ok := egressSelectsNs(e, s.mesh.sidecarNs, ms.ns); ok {
+		if h, ok := egressSelectsNs(e, s.node.Metadata.Namespace, ms.ns); ok {
 			if h == ms.host || (strings.HasPrefix(h, "*") && subsetOf(ms.host, h)) {
 				return true
 			}
@@ -318,7 +463,62 @@ func (s *state) svcVisible(ms meshSvc) bool {
 	return false
 }
 
+// exportClass: CODE-DERIVED precedence among the VirtualServices a sidecar sees - 0 exported to its own namespace only
+// (which is the proxy's), 1 exported to the proxy's namespace by name, 2 public.
+func (s *state) exportClass(c *config.Config) int {
+	ex := s.mesh.extras[c.Namespace+"/"+c.Name]
+	if len(ex.exportTo) == 0 {
+		return 2
+	}
+	pns := s.node.Metadata.Namespace
+	own := false
+	for _, e := range ex.exportTo {
+		if e == "*" {
+			return 2
+		}
+		if (e == "." || e == c.Namespace) && c.Namespace == pns {
+			own = true
+		}
+	}
+	if own {
+		return 0
+	}
+	return 1
+}
+
+// visibleVss: the VirtualServices the proxy sees, by export class, creation order inside each class
+func (s *state) visibleVss() []*config.Config {
+	var out []*config.Config
+	for cl := 0; cl < 3; cl++ {
+		for i := range s.mesh.vss {
+			if c := &s.mesh.vss[i]; s.vsVisible(c) && s.exportClass(c) == cl {
+				out = append(out, c)
+			}
+		}
+	}
+	return out
+}
+
 func (s *state) vsVisible(c *config.Config) bool {
+	// exported to the proxy's namespace and bound to the mesh gateway at all?
+	if ex, ok := s.mesh.extras[c.Namespace+"/"+c.Name]; ok {
+		pns := s.node.Metadata.Namespace
+		exported := len(ex.exportTo) == 0
+		for _, e := range ex.exportTo {
+			if e == "*" || e == pns || (e == "." && c.Namespace == pns) {
+				exported = true
+			}
+		}
+		meshBound := len(ex.gateways) == 0
+		for _, g := range ex.gateways {
+			if g == "mesh" {
+				meshBound = true
+			}
+		}
+		if !exported || !meshBound {
+			return false
+		}
+	}
 	if !s.scoped() {
 		return true
 	}
@@ -326,7 +526,7 @@ func (s *state) vsVisible(c *config.Config) bool {
 		if strings.HasPrefix(e, "~") {
 			continue
 		}
-		if h, ok := egressSelectsNs(e, s.mesh.sidecarNs, c.Namespace); ok {
+		if h, ok := egressSelectsNs(e, s.node.Metadata.Namespace, c.Namespace); ok {
 			for _, vh := range c.Spec.(*networking.VirtualService).Hosts {
 				if s.excluded(c.Namespace, vh) {
 					continue // an excluded host does not import the VirtualService; another host still may
@@ -378,7 +578,7 @@ func (s *state) aliasesByConcreteEntry(ms meshSvc) []string {
 			ens, h = "*", e
 		}
 		if ens == "." {
-			ens = s.mesh.sidecarNs
+			ens = s.node.Metadata.Namespace
 		}
 		switch {
 		case ens == "*":
@@ -420,11 +620,13 @@ func svcNames(ms meshSvc, proxyDomain string) []string {
 			}
 		}
 	}
-	if ms.addr != "" && ms.addr != "0.0.0.0" {
-		if strings.Contains(ms.addr, ":") {
-			out = append(out, "["+ms.addr+"]") // an IPv6 literal in a Host header is bracketed
-		} else {
-			out = append(out, ms.addr)
+	for _, a := range ms.addrsFor {
+		if a != "" && a != "0.0.0.0" {
+			if strings.Contains(a, ":") {
+				out = append(out, "["+a+"]") // an IPv6 literal in a Host header is bracketed
+			} else {
+				out = append(out, a)
+			}
 		}
 	}
 	return out
@@ -444,12 +646,7 @@ func hasPort(ms meshSvc, p int) bool {
 // the oldest one that has a rule for this proxy.  indexVariant (classification only, F-C12-6): for a wildcard
 // host only the oldest listing VirtualService is considered, whether or not it has a rule for this proxy.
 func (s *state) vsChoice(hostname string) *config.Config {
-	var vss []*config.Config // the VirtualServices this proxy sees
-	for i := range s.mesh.vss {
-		if s.vsVisible(&s.mesh.vss[i]) {
-			vss = append(vss, &s.mesh.vss[i])
-		}
-	}
+	vss := s.visibleVss() // the VirtualServices this proxy sees
 	hostsOf := func(c *config.Config) []string { return c.Spec.(*networking.VirtualService).Hosts }
 	var listing []*config.Config
 	for _, c := range vss {
@@ -525,13 +722,16 @@ func (s *state) vsDecision(c *config.Config, q request) string {
 }
 
 func (s *state) policyDecision() string {
-	p := "allow"
-	if s.scoped() && s.mesh.policy != "" {
+	// the Sidecar's policy if it applies to the proxy and sets one, else the mesh-wide one
+	p := s.mesh.meshPolicy
+	if s.scoped() && s.mesh.policy != "" && s.mesh.policy != "allow" {
 		p = s.mesh.policy
 	}
 	switch {
 	case p == "registry":
 		return "dr:502!-"
+	case p == "dynamic":
+		return showDist([]kvw{{"AllowAnyDynamicDNSCluster", 1}})
 	case strings.HasPrefix(p, "egress="):
 		h, port, _ := strings.Cut(wire.Dec(p[7:]), "|")
 		return showDist([]kvw{{"outbound|" + port + "||" + h, 1}})
@@ -553,12 +753,7 @@ func (s *state) onPortVisible() []meshSvc {
 // VirtualService host first, else the longest matching wildcard host, oldest VirtualService listing it.  Hostnames
 // compare case-insensitively.
 func (s *state) indexedVS(key string) *config.Config {
-	var vss []*config.Config
-	for i := range s.mesh.vss {
-		if s.vsVisible(&s.mesh.vss[i]) {
-			vss = append(vss, &s.mesh.vss[i])
-		}
-	}
+	vss := s.visibleVss()
 	for _, c := range vss {
 		for _, h := range c.Spec.(*networking.VirtualService).Hosts {
 			if !strings.HasPrefix(h, "*") && strings.ToLower(h) == key {
@@ -596,20 +791,20 @@ type strayHost struct {
 // VirtualService has a rule for this proxy, and the listener port is 80 or it also serves a service of this port.
 func (s *state) strayHosts() []strayHost {
 	on := s.onPortVisible()
-	isSvc := func(h string) bool {
+	// isSvc: 0 = not a service of the port, 1 = a service whose port of this number is not HTTP, 2 = an HTTP service
+	isSvc := func(h string) int {
 		for _, ms := range on {
 			if strings.ToLower(ms.host) == h {
-				return true
+				if intIn(ms.tcp, s.port) {
+					return 1
+				}
+				return 2
 			}
 		}
-		return false
+		return 0
 	}
 	var out []strayHost
-	for i := range s.mesh.vss {
-		c := &s.mesh.vss[i]
-		if !s.vsVisible(c) {
-			continue
-		}
+	for _, c := range s.visibleVss() {
 		vs := c.Spec.(*networking.VirtualService)
 		if !s.vsApplies(vs) {
 			continue
@@ -619,9 +814,10 @@ func (s *state) strayHosts() []strayHost {
 		for _, h := range vs.Hosts {
 			lh := strings.ToLower(h)
 			if !strings.HasPrefix(lh, "*") {
-				if isSvc(lh) {
+				switch isSvc(lh) {
+				case 2:
 					serves = true
-				} else {
+				case 0:
 					stray = append(stray, lh)
 				}
 				continue
@@ -630,7 +826,7 @@ func (s *state) strayHosts() []strayHost {
 			for _, ms := range on {
 				if strings.HasSuffix(strings.ToLower(ms.host), lh[1:]) {
 					matched = true
-					if x := s.indexedVS(strings.ToLower(ms.host)); x != nil && x.Name == c.Name && x.Namespace == c.Namespace {
+					if x := s.indexedVS(strings.ToLower(ms.host)); x != nil && x.Name == c.Name && x.Namespace == c.Namespace && !intIn(ms.tcp, s.port) {
 						serves = true
 					}
 				}
@@ -664,6 +860,9 @@ func (s *state) strayHosts() []strayHost {
 
 func (s *state) claimedAsAlias(h string) bool {
 	for _, ms := range s.onPortVisible() {
+		if intIn(ms.tcp, s.port) {
+			continue
+		}
 		for _, a := range s.visibleAliases(ms) {
 			if a == h {
 				return true
@@ -681,6 +880,9 @@ func (s *state) meshSpec(authority string, q request) (string, bool) {
 	a := asciiLower(stripPort(authority)) // the outbound listener already fixes the port
 	var claim []meshSvc
 	for _, ms := range s.onPortVisible() {
+		if intIn(ms.tcp, s.port) {
+			continue // the service's port of this number is not HTTP: it is not addressed through this route configuration
+		}
 		if ms.ext != "" && s.vsChoice(strings.ToLower(ms.host)) == nil {
 			continue // an Alias service has no virtual host of its own unless a VirtualService serves it
 		}
@@ -693,6 +895,7 @@ func (s *state) meshSpec(authority string, q request) (string, bool) {
 		lms := ms
 		lms.host = strings.ToLower(ms.host)
 		lms.aliases = s.visibleAliases(ms)
+		lms.addrsFor = ms.addressesFor(s.mesh.cluster)
 		for _, n := range svcNames(lms, s.mesh.proxyDomain) {
 			if asciiLower(n) == a {
 				claim = append(claim, ms)
@@ -705,6 +908,35 @@ func (s *state) meshSpec(authority string, q request) (string, bool) {
 	for _, e := range strays {
 		if !strings.HasPrefix(e.name, "*") && e.name == a {
 			exact = append(exact, e)
+		}
+	}
+	// a headless service is also addressed by the names of its pods: <pod>.<any name of the service>
+	var pods []meshSvc
+	if len(claim) == 0 && len(exact) == 0 {
+		for _, ms := range s.onPortVisible() {
+			if !ms.headless || intIn(ms.tcp, s.port) {
+				continue
+			}
+			lms := ms
+			lms.host, lms.aliases, lms.addrsFor = strings.ToLower(ms.host), s.visibleAliases(ms), nil
+			for _, n := range svcNames(lms, s.mesh.proxyDomain) {
+				if strings.HasSuffix(a, "."+asciiLower(n)) {
+					pods = append(pods, ms)
+					break
+				}
+			}
+		}
+		wild := 0
+		for _, e := range strays {
+			if len(e.name) > 1 && strings.HasPrefix(e.name, "*") && len(a) > len(e.name)-1 && strings.HasSuffix(a, e.name[1:]) {
+				wild++
+			}
+		}
+		switch {
+		case len(pods) == 1 && wild == 0:
+			return s.decideFor(pods[0], q), true
+		case len(pods) > 0:
+			return "", false // CONTESTED between pod names / wildcard VirtualService hosts
 		}
 	}
 	switch {
@@ -849,6 +1081,18 @@ func genRds(seed uint64, n int, out string) {
 		if len(picked) > 7 {
 			picked = picked[:7]
 		}
+		if plain { // ... no Resolution: Alias service either
+			var u []meshSvc
+			for _, ms := range picked {
+				if ms.ext == "" {
+					u = append(u, ms)
+				}
+			}
+			if len(u) == 0 {
+				u = append(u, pool[0])
+			}
+			picked = u
+		}
 		// hostnames are case-insensitive: a ServiceEntry may spell its host with capitals
 		for k := range picked {
 			if !plain && !strings.HasSuffix(picked[k].host, ".svc.cluster.local") && r.Chance(1, 5) {
@@ -883,6 +1127,26 @@ func genRds(seed uint64, n int, out string) {
 			if k == 0 {
 				ms.ports = []int{port}
 			}
+			if len(ms.ports) == 2 && r.Chance(1, 2) {
+				ms.ports[0], ms.ports[1] = ms.ports[1], ms.ports[0] // the listener port need not come first
+			}
+			if !plain && k > 0 && r.Chance(1, 8) {
+				ms.tcp = []int{ms.ports[r.Intn(len(ms.ports))]} // a TCP port: never served by an HTTP route configuration
+			}
+			if !plain && ms.ext == "" && strings.HasSuffix(ms.host, ".svc.cluster.local") && r.Chance(1, 10) {
+				ms.headless = true
+			}
+			if !plain && r.Chance(1, 6) {
+				// per-cluster VIPs (multi-cluster, several VIPs per cluster, dual stack)
+				ks := strconv.Itoa(k)
+				ms.vips = []clusterVIP{{"c1", []string{"10.1." + ks + ".1", "10.1." + ks + ".2"}}, {"c2", []string{"10.2." + ks + ".1", "2001:db8:2::" + ks}}}
+				if r.Chance(1, 3) {
+					ms.vips = ms.vips[:1]
+				}
+				if r.Chance(1, 4) {
+					ms.vips[0].addrs = []string{"2001:db8:1::" + ks} // an IPv6-only cluster: no address for an IPv4 proxy there
+				}
+			}
 			if r.Chance(2, 3) {
 				ms.addr = "10.0." + strconv.Itoa(k) + ".1"
 				if k > 0 && r.Chance(1, 8) {
@@ -893,9 +1157,28 @@ func genRds(seed uint64, n int, out string) {
 			}
 			onPort[ms.host] = hasPort(ms, port)
 			picked[k] = ms
-			f := []string{"msvc", wire.Enc(ms.host), wire.Enc(ms.ns), wire.EncList(intsToStrs(ms.ports)), wire.Enc(ms.addr), wire.Enc(ms.ext)}
-			if len(ms.aliases) > 0 {
+			var pts []string
+			for _, p := range ms.ports {
+				if intIn(ms.tcp, p) {
+					pts = append(pts, "t"+strconv.Itoa(p))
+				} else {
+					pts = append(pts, strconv.Itoa(p))
+				}
+			}
+			extTok := ms.ext
+			if ms.headless {
+				extTok = "headless"
+			}
+			f := []string{"msvc", wire.Enc(ms.host), wire.Enc(ms.ns), wire.EncList(pts), wire.Enc(ms.addr), wire.Enc(extTok)}
+			if len(ms.aliases) > 0 || len(ms.vips) > 0 {
 				f = append(f, wire.EncList(ms.aliases))
+			}
+			if len(ms.vips) > 0 {
+				var vs []string
+				for _, v := range ms.vips {
+					vs = append(vs, v.cluster+"="+strings.Join(v.addrs, "+"))
+				}
+				f = append(f, wire.Enc(strings.Join(vs, ";")))
 			}
 			s.rdsStep(f)
 			o.Line(f...)
@@ -904,6 +1187,7 @@ func genRds(seed uint64, n int, out string) {
 		nvs := r.Intn(5)
 		usedHosts := map[string]bool{}
 		var all []*networking.VirtualService
+		var allNs, usedVS []string
 		for k := 0; k < nvs; k++ {
 			var hosts []string
 			want := 1
@@ -953,13 +1237,44 @@ func genRds(seed uint64, n int, out string) {
 						hosts[0] = strings.ToLower(hosts[0])
 					}
 				}
-				vsf := []string{"vs", "mvs" + strconv.Itoa(k), wire.Pick(r, nss), "plain", wire.EncList(hosts)}
+				// VirtualServices are identified by name AND namespace: the same name may be used in two namespaces
+				vsName, vsNs := "mvs"+strconv.Itoa(k), wire.Pick(r, nss)
+				if k > 0 && r.Chance(1, 3) {
+					vsName = "mvs" + strconv.Itoa(r.Intn(k))
+					for _, prev := range usedVS {
+						if prev == vsNs+"/"+vsName { // taken in this namespace: another namespace, else a fresh name
+							vsNs = nss[(indexOf(nss, vsNs)+1)%len(nss)]
+						}
+					}
+					for _, prev := range usedVS {
+						if prev == vsNs+"/"+vsName {
+							vsName = "mvs" + strconv.Itoa(k)
+						}
+					}
+				}
+				vsf := []string{"vs", vsName, vsNs, "plain", wire.EncList(hosts)}
 				s.apply(vsf)
+				// top-level gateways: unset, mesh (+ a gateway), or a gateway only - then no sidecar ever sees the VirtualService
+				var topGws []string
+				if !plain {
+					switch r.Intn(10) {
+					case 0:
+						topGws = []string{"mesh"}
+					case 1:
+						topGws = []string{"mesh", nss[0] + "/gw"}
+					case 2:
+						topGws = []string{nss[0] + "/gw"}
+					}
+				}
+				s.vs.Gateways = topGws
 				nr := 1 + r.Intn(3)
 				for j := 0; j < nr; j++ {
 					h := genRule(r, "requests", j, false, false)
 					for _, m := range h.Match {
-						m.Gateways = nil // mesh gateway only
+						m.Gateways = nil
+						if len(topGws) == 2 && r.Chance(1, 2) {
+							m.Gateways = wire.Pick(r, [][]string{{"mesh"}, {nss[0] + "/gw"}, {"mesh", nss[0] + "/gw"}}) // rule for one of the bound gateways
+						}
 						if m.SourceNamespace != "" {
 							m.SourceNamespace = wire.Pick(r, nss)
 						}
@@ -989,8 +1304,23 @@ func genRds(seed uint64, n int, out string) {
 				for _, h := range s.vs.Http {
 					emitRule(o, h)
 				}
-				o.Line("mvs")
+				// exportTo: unset, everywhere, its own namespace, one namespace
+				var exportTo []string
+				if !plain && r.Chance(1, 5) {
+					exportTo = wire.Pick(r, [][]string{{"*"}, {"."}, {nss[0]}, {".", nss[len(nss)-1]}})
+				}
+				mf := []string{"mvs"}
+				if len(exportTo) > 0 || len(topGws) > 0 {
+					mf = append(mf, wire.EncList(exportTo))
+				}
+				if len(topGws) > 0 {
+					mf = append(mf, wire.EncList(topGws))
+				}
+				s.rdsStep(mf)
+				o.Line(mf...)
+				usedVS = append(usedVS, vsNs+"/"+vsName)
 				all = append(all, s.vs)
+				allNs = append(allNs, vsNs)
 				break
 			}
 		}
@@ -1003,6 +1333,9 @@ func genRds(seed uint64, n int, out string) {
 		scNs := ""
 		if r.Chance(1, 3) {
 			scNs = wire.Pick(r, nss)
+			if !plain && r.Chance(1, 5) {
+				scNs = "istio-system" // the root namespace: the default Sidecar of every namespace without one of its own
+			}
 			var eh []string
 			for _, ns := range append([]string{"*", "."}, nss...) {
 				if r.Chance(1, 3) {
@@ -1024,14 +1357,26 @@ func genRds(seed uint64, n int, out string) {
 			}
 			f := []string{"sidecar", wire.Enc(scNs), wire.EncList(eh)}
 			pol := "allow"
-			switch r.Intn(5) {
-			case 0:
-				pol = "registry"
-			case 1:
-				pol = "egress=" + wire.Enc(wire.Pick(r, picked).host+"|"+wire.Pick(r, []string{"443", "15443"}))
+			if !plain {
+				switch r.Intn(6) {
+				case 0:
+					pol = "registry"
+				case 1:
+					pol = "egress=" + wire.Enc(wire.Pick(r, picked).host+"|"+wire.Pick(r, []string{"443", "15443"}))
+				case 2:
+					pol = "allowany" // ALLOW_ANY spelled out: wins over a mesh-wide REGISTRY_ONLY
+				}
 			}
 			withPort := r.Chance(1, 3)
-			if pol != "allow" || withPort {
+			// a workloadSelector: the Sidecar applies only to the workloads of its namespace carrying these labels
+			var sel []kv
+			if !plain && scNs != "istio-system" && r.Chance(1, 4) {
+				sel = []kv{wire.Pick(r, labelPool)}
+				if x := wire.Pick(r, labelPool); x.k != sel[0].k && r.Chance(1, 3) {
+					sel = append(sel, x)
+				}
+			}
+			if pol != "allow" || withPort || len(sel) > 0 {
 				f = append(f, pol)
 			}
 			if withPort {
@@ -1044,11 +1389,28 @@ func genRds(seed uint64, n int, out string) {
 					ph = append(ph, wire.Pick(r, append([]string{"*"}, nss...))+"/"+wire.Pick(r, append([]string{"*"}, meshVSHosts...)))
 				}
 				f = append(f, strconv.Itoa(wire.Pick(r, []int{port, port, 7070})), wire.EncList(ph))
+			} else if len(sel) > 0 {
+				f = append(f, "0", "-")
+			}
+			if len(sel) > 0 {
+				f = append(f, encPairs(sel))
 			}
 			s.rdsStep(f)
 			o.Line(f...)
 		}
-		_ = scNs
+		// mesh-wide outboundTrafficPolicy (MeshConfig): REGISTRY_ONLY or ALLOW_ANY_DYNAMIC_DNS
+		if !plain && r.Chance(1, 8) {
+			f := []string{"meshpolicy", wire.Pick(r, []string{"registry", "dynamic"})}
+			s.rdsStep(f)
+			o.Line(f...)
+		}
+		// DestinationRule objects (subsets, consistent hash): they must not change where a request goes
+		if r.Chance(1, 4) {
+			x := wire.Pick(r, picked)
+			f := []string{"mdr", wire.Enc(strings.ToLower(x.host)), wire.Enc(wire.Pick(r, []string{x.ns, nss[0]}))}
+			s.rdsStep(f)
+			o.Line(f...)
+		}
 		// several sidecars are served one after the other from the same generator and cache; neighbours often
 		// share the namespace and differ only in their workload labels
 		np := 1 + r.Intn(3)
@@ -1060,38 +1422,83 @@ func genRds(seed uint64, n int, out string) {
 			if pi > 0 && r.Chance(2, 3) {
 				p.ns = prev.ns
 			}
+			if scNs != "" && scNs != "istio-system" && r.Chance(1, 2) {
+				p.ns = scNs // under the Sidecar resource more often than by chance
+			}
 			prev = p
-			o.Line("rds", wire.Enc(p.ns), encPairs(p.labels), strconv.Itoa(port))
+			cl := wire.Pick(r, []string{"", "", "c1", "c2", "c3"})
+			rf := []string{"rds", wire.Enc(p.ns), encPairs(p.labels), strconv.Itoa(port)}
+			if cl != "" {
+				rf = append(rf, wire.Enc(cl))
+			}
+			o.Line(rf...)
 			pd := p.ns + ".svc.cluster.local"
 			nreq := 4 + r.Intn(5)
 			for k := 0; k < nreq; k++ {
 				ms := wire.Pick(r, picked)
+				for t := 0; t < 3 && (!hasPort(ms, port) || intIn(ms.tcp, port) || ms.ext != ""); t++ {
+					ms = wire.Pick(r, picked) // mostly a service this route configuration serves
+				}
+				ms.addrsFor = ms.addressesFor(cl)
 				names := svcNames(ms, pd)
 				a := wire.Pick(r, names)
-				switch r.Intn(12) {
-				case 0:
-					a = flipCase(r, a)
-				case 1, 2:
-					a = strings.Split(ms.host, ".")[0] // bare name, valid only in the same namespace
-				case 3:
-					a = oneOff(r, a)
-				case 4:
-					a = wire.Pick(r, []string{"unknown.example.org", "x.default.svc.cluster.local", "reviews." + p.ns + ".svc", "example.com", "reviews." + p.ns})
-				case 5, 6:
-					// a host some VirtualService lists (possibly outside the registry) or a name under a wildcard host
-					var vh []string
-					for _, v := range all {
-						vh = append(vh, v.Hosts...)
+				src := merged
+				if len(all) > 0 && r.Chance(3, 5) {
+					// aimed at ONE VirtualService: addressed to one of its hosts, built from its own rules
+					vi := r.Intn(len(all))
+					src = all[vi]
+					h := wire.Pick(r, src.Hosts)
+					for t := 0; t < 3 && !onPort[h]; t++ { // mostly a host that is a service of the listener port
+						vi = r.Intn(len(all))
+						src = all[vi]
+						h = wire.Pick(r, src.Hosts)
 					}
-					if len(vh) > 0 {
-						a = wire.Pick(r, vh)
-						if strings.HasPrefix(a, "*") {
-							a = wire.Pick(r, []string{"x", "a.b", "external"}) + a[1:]
+					switch {
+					case strings.HasPrefix(h, "*"):
+						a = wire.Pick(r, []string{"x", "a.b", "external"}) + h[1:]
+						for _, x := range picked {
+							if strings.HasSuffix(strings.ToLower(x.host), strings.ToLower(h[1:])) && r.Chance(2, 3) {
+								a = x.host
+							}
 						}
+					case !strings.Contains(h, "."):
+						a = h + "." + allNs[vi] + ".svc.cluster.local"
+					default:
+						a = h
 					}
-				case 7:
-					if len(ms.aliases) > 0 {
-						a = wire.Pick(r, svcNames(meshSvc{host: ms.aliases[0], ns: ms.ns}, pd))
+					if r.Chance(1, 8) {
+						a = flipCase(r, a)
+					}
+				} else {
+					switch r.Intn(12) {
+					case 0:
+						a = flipCase(r, a)
+					case 1:
+						a = strings.Split(ms.host, ".")[0] // bare name, valid only in the same namespace
+					case 3:
+						a = oneOff(r, a)
+					case 4:
+						a = wire.Pick(r, []string{"unknown.example.org", "x.default.svc.cluster.local", "reviews." + p.ns + ".svc", "example.com", "reviews." + p.ns})
+					case 5:
+						// a host some VirtualService lists (possibly outside the registry) or a name under a wildcard host
+						var vh []string
+						for _, v := range all {
+							vh = append(vh, v.Hosts...)
+						}
+						if len(vh) > 0 {
+							a = wire.Pick(r, vh)
+							if strings.HasPrefix(a, "*") {
+								a = wire.Pick(r, []string{"x", "a.b", "external"}) + a[1:]
+							}
+						}
+					case 6, 7:
+						if len(ms.aliases) > 0 {
+							a = wire.Pick(r, svcNames(meshSvc{host: ms.aliases[0], ns: ms.ns}, pd))
+						}
+					case 8, 9:
+						if ms.headless {
+							a = wire.Pick(r, []string{"pod-0.", "a.b."}) + wire.Pick(r, svcNames(meshSvc{host: ms.host, ns: ms.ns}, pd))
+						}
 					}
 				}
 				// real clients send host:port on these listener ports; the port is not part of the virtual-host match
@@ -1102,8 +1509,8 @@ func genRds(seed uint64, n int, out string) {
 					a = a + ":" + wire.Pick(r, []string{"80", "1234", "9080"})
 				}
 				var q request
-				if len(merged.Http) > 0 {
-					q = synthRequests(r, merged, 1)[0]
+				if len(src.Http) > 0 {
+					q = synthRequests(r, src, 1)[0]
 				} else {
 					q = synthRequest(r, nil)
 				}
@@ -1118,6 +1525,15 @@ func genRds(seed uint64, n int, out string) {
 		fmt.Fprintf(f, "generated %d\nrejected %d\nmalformed %d\n", st.generated, st.rejected, st.malformed)
 		f.Close()
 	}
+}
+
+func indexOf(l []string, x string) int {
+	for i, y := range l {
+		if x == y {
+			return i
+		}
+	}
+	return 0
 }
 
 func intsToStrs(l []int) []string {
@@ -1170,10 +1586,57 @@ func oracleRds(in, out string) {
 					v.fail(s.classifyMesh(q, want, got), fmt.Sprintf("want=%s got=%s authority=%s path=%s proxy=%s/%s", want, got, f[4], f[1],
 						s.node.Metadata.Namespace, encPairs(sortedKV(s.node.Labels))))
 				}
+			case f[0] == "rds":
+				s.rdsStep(f)
+				// clauses on the virtual-host TABLE itself (not only on sampled decisions)
+				if msg := s.tableClauses(); msg != "" {
+					v.fail(strings.SplitN(msg, " ", 2)[0], strings.SplitN(msg, " ", 2)[1]+fmt.Sprintf(" proxy=%s/%s port=%d", s.node.Metadata.Namespace,
+						encPairs(sortedKV(s.node.Labels)), s.port))
+				}
 			default:
 				s.rdsStep(f)
 			}
 		}()
 	}
 	flush()
+}
+
+// tableClauses: what must hold of the sidecar's virtual-host table whatever requests are sent -
+//
+//	domains-unique        no (lower-cased) domain occurs twice, within or across virtual hosts (Envoy rejects the
+//	                      whole route configuration otherwise);
+//	table-service-vhost   every service the proxy sees whose port of the listener's number speaks HTTP - an Alias
+//	                      service excepted - is reachable by its FQDN: exactly one virtual host carries it as a domain;
+//	table-catch-all       exactly one virtual host has the domain "*".
+func (s *state) tableClauses() string {
+	rc := s.mesh.rc
+	if rc == nil {
+		return ""
+	}
+	owner := map[string]string{}
+	stars := 0
+	for _, vh := range rc.VirtualHosts {
+		for _, d := range vh.Domains {
+			ld := strings.ToLower(d)
+			if prev, dup := owner[ld]; dup {
+				return "domains-unique domain=" + wire.Enc(d) + " vhosts=" + wire.Enc(prev) + "," + wire.Enc(vh.Name)
+			}
+			owner[ld] = vh.Name
+			if d == "*" {
+				stars++
+			}
+		}
+	}
+	if stars != 1 {
+		return "table-catch-all count=" + strconv.Itoa(stars)
+	}
+	for _, ms := range s.onPortVisible() {
+		if intIn(ms.tcp, s.port) || ms.ext != "" {
+			continue
+		}
+		if _, ok := owner[strings.ToLower(ms.host)]; !ok {
+			return "table-service-vhost service=" + wire.Enc(ms.host) + " has-no-virtual-host"
+		}
+	}
+	return ""
 }
